@@ -231,6 +231,16 @@ func c12Kinds() []c12Kind {
 				return "", false
 			}
 			sc.Vers = vers
+			label := "1"
+			if vers == tls.VersionTLS13 && x.Choose("after-hello-retry-request", 2) == 1 {
+				// the offending ServerHello is the one that follows a well-formed HelloRetryRequest
+				grp := hrrGroupFor(o)
+				if grp == 0 {
+					return "", false
+				}
+				sc.Group, sc.HRR = grp, true
+				label = "1 (in the ServerHello after a HelloRetryRequest)"
+			}
 			hk.Out = func(n int, t uint8, d []byte) []byte {
 				if t == 2 && !isHRR(d) {
 					if sp, ok := parseServerHello(d); ok {
@@ -240,7 +250,7 @@ func c12Kinds() []c12Kind {
 				}
 				return d
 			}
-			return "1", true
+			return label, true
 		}, func(cs tls.ConnectionState, v string) bool { return false }},
 		{"psk-selected-without-offer", func(o offer, hk *connHooks, sc *serverChoice, x *explore.X) (string, bool) {
 			if !has16(o.versions, tls.VersionTLS13) {
@@ -265,8 +275,20 @@ func c12Kinds() []c12Kind {
 			}
 			mode := x.Choose("value", 2) // 0 one byte changed, 1 emptied
 			sc.Vers = tls.VersionTLS13
+			afterHRR := x.Choose("after-hello-retry-request", 2) == 1
+			if afterHRR {
+				// the HelloRetryRequest echoes the id correctly; only the ServerHello that follows does not
+				grp := hrrGroupFor(o)
+				if grp == 0 {
+					return "", false
+				}
+				sc.Group, sc.HRR = grp, true
+			}
 			hk.Out = func(n int, t uint8, d []byte) []byte {
 				if t != 2 || len(d) < 39 {
+					return d
+				}
+				if afterHRR && isHRR(d) {
 					return d
 				}
 				sl := int(d[38])
@@ -282,9 +304,25 @@ func c12Kinds() []c12Kind {
 				body = append(body, d[39+sl:]...)
 				return hsMsg(2, body)
 			}
+			if afterHRR {
+				return fmt.Sprintf("%d (in the ServerHello after a HelloRetryRequest)", mode), true
+			}
 			return fmt.Sprint(mode), true
 		}, func(cs tls.ConnectionState, v string) bool { return false }},
 	}
+}
+
+// hrrGroupFor: a classical group the hello lists without sending a share for it (0 if none).
+func hrrGroupFor(o offer) uint16 {
+	if !has16(o.versions, tls.VersionTLS13) {
+		return 0
+	}
+	for _, c := range []uint16{24, 23, 25, 29} {
+		if has16(o.groups, c) && !has16(o.shares, c) {
+			return c
+		}
+	}
+	return 0
 }
 
 func c12Clients(nSeeds int) []gridClient {
